@@ -123,8 +123,10 @@ class QModuleMixin(ABC):
         self.weight_group_size = self._select_weight_group_size()
         self.activation_qtype = activations
         self.optimizer = optimizer
-        self.register_buffer("input_scale", torch.ones(()))
-        self.register_buffer("output_scale", torch.ones(()))
+        # The scales are created with the dtype and device of the wrapped module parameters
+        scale_dtype, scale_device = kwargs.get("dtype"), kwargs.get("device")
+        self.register_buffer("input_scale", torch.ones((), dtype=scale_dtype, device=scale_device))
+        self.register_buffer("output_scale", torch.ones((), dtype=scale_dtype, device=scale_device))
 
     def _select_weight_group_size(self):
         """Select the group size used to quantize the weights for the current weight qtype"""
